@@ -1576,7 +1576,7 @@ def _tree_shape_typing(ctx, rep, tier):
     seen = set()
     for f in a.findings:
         key = (f.func, f.kind, f.construct)
-        if key in seen:
+        if key in seen or f.kind == "MUT":       # stores into the tree are C15.p's business
             continue
         seen.add(key)
         rep.bad("C18.ts", f.func, f"{f.kind}: {f.construct}"[:200], f.message)
